@@ -111,6 +111,8 @@ pub fn quiet_panics() {
 // trace specification has no action that matches a call that did not return.
 pub static WATCH_DEADLINE_MS: std::sync::atomic::AtomicU64 = std::sync::atomic::AtomicU64::new(0);
 pub static WATCH_CTX: std::sync::Mutex<(String, String)> = std::sync::Mutex::new((String::new(), String::new()));
+/// the ops of the running history so far (JSON list, the op in flight last) and the history's RNG seed
+pub static WATCH_HIST: std::sync::Mutex<(String, u64)> = std::sync::Mutex::new((String::new(), 0));
 static WATCH_START: std::sync::OnceLock<std::time::Instant> = std::sync::OnceLock::new();
 
 fn now_ms() -> u64 {
@@ -136,7 +138,8 @@ pub fn spawn_watchdog() {
         let d = WATCH_DEADLINE_MS.load(std::sync::atomic::Ordering::SeqCst);
         if d != 0 && now_ms() > d {
             let (path, what) = WATCH_CTX.lock().map(|c| c.clone()).unwrap_or_default();
-            let ev = serde_json::json!({"ev": "watchdog", "k": "mac", "opj": what,
+            let (ops_all, hseed) = WATCH_HIST.lock().map(|c| c.clone()).unwrap_or_default();
+            let ev = serde_json::json!({"ev": "watchdog", "k": "mac", "opj": what, "ops_all": ops_all, "hseed": hseed.to_string(),
                 "resp": {"k": "Hang", "v": 0, "cnt": [], "s": "the call did not return (watchdog; no random draws were made)"}});
             if let Ok(mut f) = std::fs::OpenOptions::new().append(true).open(&path) {
                 use std::io::Write;
